@@ -462,7 +462,7 @@ func (s *Sim) drain() {
 	s.probes()
 	s.relayAll()
 	for _, p := range s.Packets {
-		if (p.State == PktInFlight || p.State == PktReceived) && !p.Poisoned {
+		if (p.State == PktInFlight || p.State == PktReceived) && !p.Poisoned && len(s.Viol) == 0 {
 			panic(harnessErr("drain did not settle packet op=%d (state %d)", p.Origin, p.State))
 		}
 	}
